@@ -11,12 +11,14 @@ EXPLANATION = (
     "order of writer vs both readers. CONFIGURATION_TABLE has a compress function for every level init/params admit. "
     "ATOM: encode_len/encode_dist/d_code/tally_dist reference exactly the tables of their side (LENGTH_CODE, BASE_LENGTH, "
     "EXTRA_LBITS / DIST_CODE, BASE_DIST, EXTRA_DBITS) and the d_code index split (256, >>7). Nothing dynamic (window, "
-    "hashing, block flushing, params switching) is decided.")
+    "hashing, block flushing, params switching) is decided. "
+    "SIB/ref-writes: for the compressor core (fill_window, lm_init, lm_set_level and the seven deflate_* block functions) every state field that zlib-ng's function assigns (frozen extract of the vendored C sources) is assigned by the zlib-rs counterpart, by a listed helper call, or by a function that accompanies it in every caller - a dropped rebase/reset of match or cursor state on a window slide breaks the round trip. WHO/overlap-safe-copy: the decoder's copy_match_help uses block copies only under length <= distance.")
 
 CLAIM = dict(
     text="Static: exhaustive enumeration (33k cases) of the symbol-level round trip through the compiler-evaluated "
          "tables of both sides, plus totality of the level table and table-identity of the encoder symbol functions. "
-         "A necessary condition of losslessness: a disagreeing entry corrupts every stream that uses that symbol.",
+         "A necessary condition of losslessness: a disagreeing entry corrupts every stream that uses that symbol. "
+         "Also: write-set parity of the compressor core with the zlib-ng functions it ports (a dropped state update on a window slide breaks the round trip) and the overlap rule of the decoder's match copy.",
     note="Trusted: rustc const evaluation and MIR. The dynamic machinery of compression is outside this clause.",
     technique="exhaustive constant-table agreement (encoder vs decoder) via compiler const evaluation",
 )
@@ -126,4 +128,10 @@ def run(ck):
     if ed is not None:
         ck.decide(bool(ed.live_calls(r"State::d_code$")), "ATOM/table-use", "encode_dist:d_code", "uses d_code", "encode_dist does not use d_code", where(ed))
     params_flush(ck, P)
+    # the decoder's match copy replicates overlapping matches (distance < length) byte by byte
+    from .. import decoders
+    ck.floor("WHO/overlap-safe-copy", decoders.overlap_safe(ck, P, "WHO/overlap-safe-copy", r"inflate::writer::Writer::copy_match_help$"), 1)
+    # the compressor core keeps every state update of its reference implementation (window slide, match state, cursors)
+    from .. import refwrites
+    ck.floor("SIB/ref-writes", refwrites.check(ck, P, "SIB/ref-writes", only={"deflate.c:fill_window", "deflate.c:lm_init", "deflate.c:lm_set_level", "deflate_fast.c:deflate_fast", "deflate_slow.c:deflate_slow", "deflate_medium.c:deflate_medium", "deflate_quick.c:deflate_quick", "deflate_rle.c:deflate_rle", "deflate_huff.c:deflate_huff", "deflate_stored.c:deflate_stored"}), 40)
     ck.assumptions += ["rustc const evaluation and MIR", "host target only"]
